@@ -3,7 +3,10 @@ import Storrent.Util
 Lock-discipline table of tor/piece/piece.go (C01, C03).  The Go-AST extractor
 (harness/cmd/extract/locktable.go) regenerates `Gen.lockTable` on every run: one row per
 (function, field or callee, read/write, plain/atomic/call, lock state of `ps.mu` that
-syntactically dominates the access, lock-hold number).  Here: the row type, the expectation
+syntactically dominates the access, lock-hold number).  Unexported helpers (complete(),
+busy(), addPeer, pieceChunks, setState, del, …) are SPLICED into their callers by the
+extractor, so every row belongs to an exported entry point and extract-method / inline-method
+refactorings inside the package do not change the table.  Here: the row type, the expectation
 reviewed by hand against the (repaired) source, and `disciplineOk`, the decidable statement
 the atomic-step granularity of Model/Piece.lean relies on.
 -/
@@ -13,8 +16,8 @@ inductive RW where | r | w
   deriving Repr, DecidableEq
 inductive Via where | plain | atomic | call
   deriving Repr, DecidableEq
-/-- `caller`: a lowercase helper inherits its caller's lock state; `unknown`: the extractor
-    could not follow the code (fail-closed) -/
+/-- `unknown`: the extractor could not follow the code (fail-closed); `caller` is no longer
+    produced (helpers are spliced) and is rejected like `unknown` -/
 inductive Lock where | wlock | rlock | unlocked | caller | unknown
   deriving Repr, DecidableEq
 
@@ -29,22 +32,8 @@ structure Row where
 
 /-- mutable shared fields: every plain access must be under the lock -/
 def guarded : List String := ["data", "bitmap", "peers", "deleted", "count", "state", "*"]
-/-- the state tests that guard an access to a buffer -/
-def stateTests : List String := ["Piece.complete", "Piece.busy", "Piece.busyOrComplete"]
 /-- entry points whose access to `data`/`bitmap` is conditional on the piece's state -/
 def gatedFns : List String := ["Pieces.ReadAt", "Pieces.AddData", "Pieces.Finalise", "Pieces.Hole"]
-
-/-- the lock states under which `fn` can be entered, following `caller` rows up the call
-    graph (`[]` = never called inside the file) -/
-def entryLocks (t : List Row) : Nat → String → List Lock
-  | 0, _ => [.unknown]
-  | fuel + 1, fn =>
-    (t.filter (fun r => r.via == .call && r.field == fn)).flatMap (fun r =>
-      if r.lock == .caller then entryLocks t fuel r.fn else [r.lock])
-
-/-- the lock states an access row can execute under -/
-def effective (t : List Row) (r : Row) : List Lock :=
-  if r.lock == .caller then entryLocks t 4 r.fn else [r.lock]
 
 def lockOkFor (rw : RW) (l : Lock) : Bool :=
   match rw, l with
@@ -52,102 +41,127 @@ def lockOkFor (rw : RW) (l : Lock) : Bool :=
   | .r, .rlock => true
   | _, _ => false
 
+def locked (l : Lock) : Bool := l == .wlock || l == .rlock
+
 /-- (1) nothing the extractor could not follow; (2) every plain access to a guarded field is
-    under the lock (write lock for writes), helpers resolved through their callers;
-    (3) functions analysed as "called locked" are only called under the write lock;
-    (4) `state` is only written through `setState` (atomic CAS), called under the write lock;
+    under the lock (write lock for writes); (3) nothing is assumed about callers;
+    (4) `state` is only written atomically (the CAS of `setState`) and under the write lock;
     (5) in ReadAt / AddData / Finalise / Hole every access to a buffer or block bitmap happens
-    in a lock hold in which the piece's state was tested (complete()/busy()/busyOrComplete()):
-    the decision and the access are one critical section. -/
+    in a lock hold in which the piece's state was read under that lock (`complete()`,
+    `busy()`, `busyOrComplete()` spliced in): the decision and the access are one critical
+    section. -/
 def disciplineOk (t : List Row) (assumed : List String) : Bool :=
-  t.all (fun r => r.lock != .unknown) &&
-  t.all (fun r => !(r.via == .plain && guarded.contains r.field) ||
-    (effective t r).all (lockOkFor r.rw)) &&
-  t.all (fun r => !(r.via == .call && assumed.contains r.field) ||
-    (effective t r).all (· == .wlock)) &&
-  t.all (fun r => !(r.field == "state" && r.rw == .w) ||
-    (r.via == .atomic && r.fn == "Piece.setState")) &&
-  t.all (fun r => !(r.via == .call && r.field == "Piece.setState") ||
-    (effective t r).all (· == .wlock)) &&
+  t.all (fun r => r.lock != .unknown && r.lock != .caller) &&
+  t.all (fun r => !(r.via == .plain && guarded.contains r.field) || lockOkFor r.rw r.lock) &&
+  assumed.isEmpty &&
+  t.all (fun r => !(r.field == "state" && r.rw == .w) || (r.via == .atomic && r.lock == .wlock)) &&
   t.all (fun r => !(gatedFns.contains r.fn && r.via == .plain && (r.field == "data" || r.field == "bitmap")) ||
-    t.any (fun c => c.fn == r.fn && c.via == .call && stateTests.contains c.field &&
-      c.hold == r.hold && (c.lock == .wlock || c.lock == .rlock)))
+    t.any (fun c => c.fn == r.fn && c.via == .plain && c.field == "state" && c.rw == .r &&
+      c.hold == r.hold && locked c.lock))
 
-def expectedLockAssumed : List String := ["Pieces.del"]
-def expectedLockFunctions : List String := ["Piece.Busy", "Piece.BusyOrComplete", "Piece.Complete", "Piece.SetTime", "Piece.Time", "Piece.addPeer", "Piece.busy", "Piece.busyOrComplete", "Piece.complete", "Piece.setState", "Pieces.AddData", "Pieces.All", "Pieces.Bitmap", "Pieces.Bytes", "Pieces.Complete", "Pieces.Count", "Pieces.Del", "Pieces.Expire", "Pieces.Finalise", "Pieces.Hole", "Pieces.Length", "Pieces.MetadataComplete", "Pieces.Num", "Pieces.PieceBitmap", "Pieces.PieceEmpty", "Pieces.PieceLength", "Pieces.PieceSize", "Pieces.ReadAt", "Pieces.UpdateTime", "Pieces.del", "Pieces.pieceChunks"]
+def expectedLockAssumed : List String := []
+def expectedLockFunctions : List String := ["Piece.Busy", "Piece.BusyOrComplete", "Piece.Complete", "Piece.SetTime", "Piece.Time", "Pieces.AddData", "Pieces.All", "Pieces.Bitmap", "Pieces.Bytes", "Pieces.Complete", "Pieces.Count", "Pieces.Del", "Pieces.Expire", "Pieces.Finalise", "Pieces.Hole", "Pieces.Length", "Pieces.MetadataComplete", "Pieces.Num", "Pieces.PieceBitmap", "Pieces.PieceEmpty", "Pieces.PieceLength", "Pieces.PieceSize", "Pieces.ReadAt", "Pieces.UpdateTime"]
 
-/-- Reviewed by hand against tor/piece/piece.go (repaired tree).  A sorted set: no line
-    numbers, no multiplicities. -/
+/-- Reviewed by hand against tor/piece/piece.go (repaired tree), helpers spliced.  A sorted
+    set: no line numbers, no multiplicities, no helper names. -/
 def expectedLockTable : List Row := [
   ⟨"Piece.Busy", "state", .r, .atomic, .unlocked, 0⟩,
   ⟨"Piece.BusyOrComplete", "state", .r, .atomic, .unlocked, 0⟩,
   ⟨"Piece.Complete", "state", .r, .atomic, .unlocked, 0⟩,
   ⟨"Piece.SetTime", "time", .w, .atomic, .unlocked, 0⟩,
   ⟨"Piece.Time", "time", .r, .atomic, .unlocked, 0⟩,
-  ⟨"Piece.addPeer", "peers", .r, .plain, .caller, 0⟩,
-  ⟨"Piece.addPeer", "peers", .w, .plain, .caller, 0⟩,
-  ⟨"Piece.busy", "state", .r, .plain, .caller, 0⟩,
-  ⟨"Piece.busyOrComplete", "state", .r, .plain, .caller, 0⟩,
-  ⟨"Piece.complete", "state", .r, .plain, .caller, 0⟩,
-  ⟨"Piece.setState", "state", .w, .atomic, .caller, 0⟩,
   ⟨"Pieces.AddData", "Piece.BusyOrComplete", .r, .call, .unlocked, 0⟩,
-  ⟨"Pieces.AddData", "Piece.addPeer", .r, .call, .wlock, 1⟩,
-  ⟨"Pieces.AddData", "Piece.busyOrComplete", .r, .call, .wlock, 1⟩,
   ⟨"Pieces.AddData", "Pieces.PieceLength", .r, .call, .wlock, 1⟩,
-  ⟨"Pieces.AddData", "Pieces.pieceChunks", .r, .call, .wlock, 1⟩,
   ⟨"Pieces.AddData", "bitmap", .r, .plain, .wlock, 1⟩,
   ⟨"Pieces.AddData", "bitmap", .w, .plain, .wlock, 1⟩,
   ⟨"Pieces.AddData", "count", .w, .plain, .wlock, 1⟩,
   ⟨"Pieces.AddData", "data", .r, .plain, .wlock, 1⟩,
   ⟨"Pieces.AddData", "data", .w, .plain, .wlock, 1⟩,
   ⟨"Pieces.AddData", "deleted", .r, .plain, .wlock, 1⟩,
+  ⟨"Pieces.AddData", "peers", .r, .plain, .wlock, 1⟩,
+  ⟨"Pieces.AddData", "peers", .w, .plain, .wlock, 1⟩,
   ⟨"Pieces.AddData", "pieces", .r, .plain, .unlocked, 0⟩,
   ⟨"Pieces.AddData", "pieces", .r, .plain, .wlock, 1⟩,
-  ⟨"Pieces.All", "Piece.complete", .r, .call, .rlock, 1⟩,
+  ⟨"Pieces.AddData", "state", .r, .plain, .wlock, 1⟩,
   ⟨"Pieces.All", "pieces", .r, .plain, .rlock, 1⟩,
-  ⟨"Pieces.Bitmap", "Piece.complete", .r, .call, .rlock, 1⟩,
+  ⟨"Pieces.All", "state", .r, .plain, .rlock, 1⟩,
   ⟨"Pieces.Bitmap", "pieces", .r, .plain, .rlock, 1⟩,
   ⟨"Pieces.Bitmap", "pieces", .r, .plain, .unlocked, 0⟩,
+  ⟨"Pieces.Bitmap", "state", .r, .plain, .rlock, 1⟩,
   ⟨"Pieces.Bytes", "count", .r, .plain, .wlock, 1⟩,
   ⟨"Pieces.Bytes", "pieceSize", .r, .plain, .wlock, 1⟩,
   ⟨"Pieces.Complete", "Piece.Complete", .r, .call, .unlocked, 0⟩,
   ⟨"Pieces.Complete", "pieces", .r, .plain, .unlocked, 0⟩,
   ⟨"Pieces.Count", "count", .r, .plain, .rlock, 1⟩,
-  ⟨"Pieces.Del", "Pieces.del", .r, .call, .wlock, 1⟩,
+  ⟨"Pieces.Del", "Piece.Busy", .r, .call, .unlocked, 0⟩,
+  ⟨"Pieces.Del", "bitmap", .w, .plain, .wlock, 2⟩,
+  ⟨"Pieces.Del", "count", .r, .plain, .wlock, 2⟩,
+  ⟨"Pieces.Del", "count", .w, .plain, .wlock, 2⟩,
+  ⟨"Pieces.Del", "data", .r, .plain, .wlock, 1⟩,
+  ⟨"Pieces.Del", "data", .r, .plain, .wlock, 2⟩,
+  ⟨"Pieces.Del", "data", .w, .plain, .wlock, 2⟩,
   ⟨"Pieces.Del", "deleted", .w, .plain, .wlock, 1⟩,
+  ⟨"Pieces.Del", "peers", .w, .plain, .wlock, 2⟩,
+  ⟨"Pieces.Del", "pieces", .r, .plain, .unlocked, 0⟩,
   ⟨"Pieces.Del", "pieces", .r, .plain, .wlock, 1⟩,
+  ⟨"Pieces.Del", "pieces", .r, .plain, .wlock, 2⟩,
+  ⟨"Pieces.Del", "state", .r, .plain, .wlock, 1⟩,
+  ⟨"Pieces.Del", "state", .r, .plain, .wlock, 2⟩,
+  ⟨"Pieces.Del", "state", .w, .atomic, .wlock, 2⟩,
+  ⟨"Pieces.Expire", "Piece.Busy", .r, .call, .unlocked, 0⟩,
   ⟨"Pieces.Expire", "Piece.Time", .r, .call, .unlocked, 0⟩,
   ⟨"Pieces.Expire", "Pieces.Bytes", .r, .call, .unlocked, 0⟩,
-  ⟨"Pieces.Expire", "Pieces.del", .r, .call, .wlock, 1⟩,
+  ⟨"Pieces.Expire", "bitmap", .w, .plain, .wlock, 2⟩,
+  ⟨"Pieces.Expire", "count", .r, .plain, .wlock, 2⟩,
+  ⟨"Pieces.Expire", "count", .w, .plain, .wlock, 2⟩,
+  ⟨"Pieces.Expire", "data", .r, .plain, .wlock, 1⟩,
+  ⟨"Pieces.Expire", "data", .r, .plain, .wlock, 2⟩,
+  ⟨"Pieces.Expire", "data", .w, .plain, .wlock, 2⟩,
+  ⟨"Pieces.Expire", "peers", .w, .plain, .wlock, 2⟩,
   ⟨"Pieces.Expire", "pieceSize", .r, .plain, .unlocked, 0⟩,
   ⟨"Pieces.Expire", "pieces", .r, .plain, .unlocked, 0⟩,
+  ⟨"Pieces.Expire", "pieces", .r, .plain, .wlock, 1⟩,
+  ⟨"Pieces.Expire", "pieces", .r, .plain, .wlock, 2⟩,
+  ⟨"Pieces.Expire", "state", .r, .plain, .wlock, 1⟩,
+  ⟨"Pieces.Expire", "state", .r, .plain, .wlock, 2⟩,
+  ⟨"Pieces.Expire", "state", .w, .atomic, .wlock, 2⟩,
+  ⟨"Pieces.Finalise", "Piece.Busy", .r, .call, .unlocked, 0⟩,
   ⟨"Pieces.Finalise", "Piece.BusyOrComplete", .r, .call, .unlocked, 0⟩,
-  ⟨"Pieces.Finalise", "Piece.busyOrComplete", .r, .call, .wlock, 1⟩,
-  ⟨"Pieces.Finalise", "Piece.setState", .r, .call, .wlock, 1⟩,
-  ⟨"Pieces.Finalise", "Piece.setState", .r, .call, .wlock, 2⟩,
-  ⟨"Pieces.Finalise", "Pieces.del", .r, .call, .wlock, 2⟩,
-  ⟨"Pieces.Finalise", "Pieces.pieceChunks", .r, .call, .wlock, 1⟩,
+  ⟨"Pieces.Finalise", "Pieces.PieceLength", .r, .call, .wlock, 1⟩,
   ⟨"Pieces.Finalise", "bitmap", .r, .plain, .wlock, 1⟩,
+  ⟨"Pieces.Finalise", "bitmap", .w, .plain, .wlock, 3⟩,
+  ⟨"Pieces.Finalise", "count", .r, .plain, .wlock, 3⟩,
+  ⟨"Pieces.Finalise", "count", .w, .plain, .wlock, 3⟩,
   ⟨"Pieces.Finalise", "data", .r, .plain, .wlock, 1⟩,
+  ⟨"Pieces.Finalise", "data", .r, .plain, .wlock, 2⟩,
+  ⟨"Pieces.Finalise", "data", .r, .plain, .wlock, 3⟩,
+  ⟨"Pieces.Finalise", "data", .w, .plain, .wlock, 3⟩,
   ⟨"Pieces.Finalise", "deleted", .r, .plain, .wlock, 1⟩,
   ⟨"Pieces.Finalise", "peers", .r, .plain, .wlock, 2⟩,
   ⟨"Pieces.Finalise", "peers", .w, .plain, .wlock, 2⟩,
+  ⟨"Pieces.Finalise", "peers", .w, .plain, .wlock, 3⟩,
   ⟨"Pieces.Finalise", "pieces", .r, .plain, .unlocked, 0⟩,
   ⟨"Pieces.Finalise", "pieces", .r, .plain, .wlock, 1⟩,
   ⟨"Pieces.Finalise", "pieces", .r, .plain, .wlock, 2⟩,
+  ⟨"Pieces.Finalise", "pieces", .r, .plain, .wlock, 3⟩,
+  ⟨"Pieces.Finalise", "state", .r, .plain, .wlock, 1⟩,
+  ⟨"Pieces.Finalise", "state", .r, .plain, .wlock, 2⟩,
+  ⟨"Pieces.Finalise", "state", .r, .plain, .wlock, 3⟩,
+  ⟨"Pieces.Finalise", "state", .w, .atomic, .wlock, 1⟩,
+  ⟨"Pieces.Finalise", "state", .w, .atomic, .wlock, 2⟩,
+  ⟨"Pieces.Finalise", "state", .w, .atomic, .wlock, 3⟩,
   ⟨"Pieces.Hole", "*", .r, .plain, .rlock, 1⟩,
-  ⟨"Pieces.Hole", "Piece.busyOrComplete", .r, .call, .rlock, 1⟩,
   ⟨"Pieces.Hole", "Pieces.PieceLength", .r, .call, .rlock, 1⟩,
-  ⟨"Pieces.Hole", "Pieces.pieceChunks", .r, .call, .rlock, 1⟩,
   ⟨"Pieces.Hole", "bitmap", .r, .plain, .rlock, 1⟩,
   ⟨"Pieces.Hole", "pieces", .r, .plain, .rlock, 1⟩,
+  ⟨"Pieces.Hole", "state", .r, .plain, .rlock, 1⟩,
   ⟨"Pieces.Length", "length", .r, .plain, .unlocked, 0⟩,
   ⟨"Pieces.MetadataComplete", "length", .r, .plain, .unlocked, 0⟩,
   ⟨"Pieces.MetadataComplete", "length", .w, .plain, .unlocked, 0⟩,
   ⟨"Pieces.MetadataComplete", "pieceSize", .w, .plain, .unlocked, 0⟩,
   ⟨"Pieces.MetadataComplete", "pieces", .w, .plain, .unlocked, 0⟩,
   ⟨"Pieces.Num", "pieces", .r, .plain, .unlocked, 0⟩,
-  ⟨"Pieces.PieceBitmap", "Pieces.pieceChunks", .r, .call, .unlocked, 0⟩,
+  ⟨"Pieces.PieceBitmap", "Pieces.PieceLength", .r, .call, .unlocked, 0⟩,
   ⟨"Pieces.PieceBitmap", "bitmap", .r, .plain, .rlock, 1⟩,
   ⟨"Pieces.PieceBitmap", "pieces", .r, .plain, .rlock, 1⟩,
   ⟨"Pieces.PieceEmpty", "bitmap", .r, .plain, .rlock, 1⟩,
@@ -155,31 +169,15 @@ def expectedLockTable : List Row := [
   ⟨"Pieces.PieceLength", "length", .r, .plain, .unlocked, 0⟩,
   ⟨"Pieces.PieceLength", "pieceSize", .r, .plain, .unlocked, 0⟩,
   ⟨"Pieces.PieceSize", "pieceSize", .r, .plain, .unlocked, 0⟩,
-  ⟨"Pieces.ReadAt", "Piece.complete", .r, .call, .rlock, 1⟩,
   ⟨"Pieces.ReadAt", "data", .r, .plain, .rlock, 1⟩,
   ⟨"Pieces.ReadAt", "length", .r, .plain, .unlocked, 0⟩,
   ⟨"Pieces.ReadAt", "pieceSize", .r, .plain, .unlocked, 0⟩,
   ⟨"Pieces.ReadAt", "pieces", .r, .plain, .rlock, 1⟩,
+  ⟨"Pieces.ReadAt", "state", .r, .plain, .rlock, 1⟩,
   ⟨"Pieces.UpdateTime", "Piece.Complete", .r, .call, .unlocked, 0⟩,
   ⟨"Pieces.UpdateTime", "Piece.SetTime", .r, .call, .unlocked, 0⟩,
   ⟨"Pieces.UpdateTime", "Piece.Time", .r, .call, .unlocked, 0⟩,
-  ⟨"Pieces.UpdateTime", "pieces", .r, .plain, .unlocked, 0⟩,
-  ⟨"Pieces.del", "Piece.Busy", .r, .call, .unlocked, 0⟩,
-  ⟨"Pieces.del", "Piece.busy", .r, .call, .wlock, 0⟩,
-  ⟨"Pieces.del", "Piece.busy", .r, .call, .wlock, 1⟩,
-  ⟨"Pieces.del", "Piece.complete", .r, .call, .wlock, 1⟩,
-  ⟨"Pieces.del", "Piece.setState", .r, .call, .wlock, 1⟩,
-  ⟨"Pieces.del", "bitmap", .w, .plain, .wlock, 1⟩,
-  ⟨"Pieces.del", "count", .r, .plain, .wlock, 1⟩,
-  ⟨"Pieces.del", "count", .w, .plain, .wlock, 1⟩,
-  ⟨"Pieces.del", "data", .r, .plain, .wlock, 0⟩,
-  ⟨"Pieces.del", "data", .r, .plain, .wlock, 1⟩,
-  ⟨"Pieces.del", "data", .w, .plain, .wlock, 1⟩,
-  ⟨"Pieces.del", "peers", .w, .plain, .wlock, 1⟩,
-  ⟨"Pieces.del", "pieces", .r, .plain, .unlocked, 0⟩,
-  ⟨"Pieces.del", "pieces", .r, .plain, .wlock, 0⟩,
-  ⟨"Pieces.del", "pieces", .r, .plain, .wlock, 1⟩,
-  ⟨"Pieces.pieceChunks", "Pieces.PieceLength", .r, .call, .caller, 0⟩
+  ⟨"Pieces.UpdateTime", "pieces", .r, .plain, .unlocked, 0⟩
 ]
 
 end Storrent.LockTable
